@@ -213,6 +213,10 @@ def main(rec):
     if not thorough:
         r.shuffle(hist)
         hist = hist[:n_hist]
+    # every library processed twice in a row: anything one run caches on a shared object (predefined typemaps,
+    # statement tables, class-level counters) is seen by the second run of the very same input
+    for s_ in victims:
+        hist.append([s_, s_])
     alone = {}
     names = sorted({h[-1]["name"] for h in hist})
     byname = {s["name"]: s for s in allspecs}
